@@ -50,3 +50,4 @@ package nt
 //@   assert after "if (i & 1) != 0 {": ret * jac(a, b) == jac(x % y, y) && (ret == 1 || ret == -1)
 //@   assert before "if (a.Byte(0) & b.Byte(0) & 0b10) != 0 {": jac(a, b) == ite(a % 4 == 3 && b % 4 == 3, -1, 1) * jac(b, a)
 //@   assert after "if (a.Byte(0) & b.Byte(0) & 0b10) != 0 {": ret * jac(b, a) == jac(x % y, y) && (ret == 1 || ret == -1)
+//@   assert after "bModA := b.Mod(aAsNatPlus)": jac(bModA, aAsNatPlus) == jac(b, a) && aAsNatPlus == a && bModA >= 0
